@@ -4,7 +4,7 @@ open TPV TPV.Proto TPV.Sampler
 
 /-!
   line protocol of C02 (prefix notation)
-    dom  ::= P <var> <id> <ndeps> <dep>*  |  B <dom> <dom>  |  X <dom> <dom>  |  M <dom> <id> <ndeps> <dep>*
+    dom  ::= P <var> <id> <ndeps> <dep>* (interval)  |  Q … (other primitive)  |  B <dom> <dom>  |  X <dom> <dom>  |  M <dom> <id> <ndeps> <dep>*
     smp  ::= L <u|g|n|l|e> <dom> <n> <filt 0|1>  |  D <var> <id> <m>  |  * <smp> <smp>  |  + <smp> <smp>
            |  & <smp> <smp>  |  T <smp>
     request:  sample <k> <nvars> <var>* <smp>
@@ -17,6 +17,8 @@ partial def pDom : P Dom := do
   let t ← next
   match t with
   | "P" => do let v ← next; let id ← nat; let ds ← many next; pure (.prim v id ds)
+  -- a primitive that is not an Interval (circle, ...): the same rows; only ExponentialIntervalSampler refuses it
+  | "Q" => do let v ← next; let id ← nat; let ds ← many next; pure (.prim v id ds)
   | "B" => do let a ← pDom; let b ← pDom; pure (.bool a b)
   | "X" => do let a ← pDom; let b ← pDom; pure (.prod a b)
   | "M" => do let d ← pDom; let id ← nat; let ds ← many next; pure (.move d id ds)
@@ -31,7 +33,11 @@ def pKind : P LeafKind := do
 partial def pS : P S := do
   let t ← next
   match t with
-  | "L" => do let k ← pKind; let d ← pDom; let n ← nat; let f ← bool; pure (.leaf k d n f)
+  | "L" => do
+    let k ← pKind
+    -- `assert isinstance(domain, Interval)` in ExponentialIntervalSampler.__init__
+    if k = .expInterval && (← get).head? != some "P" then throw "err:not-interval"
+    let d ← pDom; let n ← nat; let f ← bool; pure (.leaf k d n f)
   | "D" => do let v ← next; let id ← nat; let m ← nat; pure (.data v id m)
   | "*" => do let a ← pS; let b ← pS; pure (.prod a b)
   | "+" => do let a ← pS; let b ← pS; pure (.sum a b)
@@ -55,12 +61,12 @@ def disjoint (a b : List Var) : Bool := a.all (· ∉ b)
 
 def check : S → List Var → Option String
   | .leaf kind d n _, pv =>
-    if n = 0 then some "err:n0"
+    -- n_points = 0 is accepted by the code (no rows) except by the Gaussian sampler (`None[:0]`)
+    if n = 0 && kind = .gaussian then some "err:n0"
     else if !(d.deps.all (· ∈ pv)) then some "err:missing-param"
     else if !(disjoint d.vars pv) then some "err:overlap"
-    else if kind = .expInterval && !(match d with | .prim _ _ _ => true | _ => false) then some "err:not-interval"
     else none
-  | .data v _ m, pv => if m = 0 then some "err:n0" else if v ∈ pv then some "err:overlap" else none
+  | .data v _ _, pv => if v ∈ pv then some "err:overlap" else none
   | .prod a b, pv => (check b pv).orElse fun _ => check a (b.vars ++ pv)
   | .sum a b, pv => ((check a pv).orElse fun _ => check b pv).orElse fun _ =>
       if a.vars = b.vars then none else some "err:space"
@@ -76,6 +82,8 @@ def step (line : String) : String :=
     let op ← next
     match op with
     | "sample" => do
+      -- a sampler with neither n_points nor a density cannot sample (token `none` in place of n)
+      if (tokens line).contains "none" then return "err:no-count"
       let k ← nat
       let vs ← many next
       let s ← pS
@@ -94,6 +102,6 @@ def step (line : String) : String :=
     | _ => return "bad-op" : P String).run' (tokens line)
   match r with
   | .ok s => s
-  | .error e => s!"bad-op {e}"
+  | .error e => if e.startsWith "err:" then e else s!"bad-op {e}"
 
 def main : IO Unit := mainLoop step
